@@ -8,8 +8,10 @@ import (
 	"hash/crc32"
 	"io"
 	"os"
+	"os/signal"
 	"path/filepath"
 	"strings"
+	"syscall"
 
 	"github.com/tetratelabs/wazero"
 	"github.com/tetratelabs/wazero/api"
@@ -110,6 +112,14 @@ func newHostDirs() *hostDirs {
 		fatalf("mkdtemp: %v", err)
 	}
 	tmpRoot = root
+	// remove the temporary tree also when the run is interrupted (SIGKILL cannot be handled)
+	sig := make(chan os.Signal, 1)
+	signal.Notify(sig, syscall.SIGINT, syscall.SIGTERM, syscall.SIGHUP)
+	go func() {
+		<-sig
+		os.RemoveAll(root)
+		os.Exit(2)
+	}()
 	h := &hostDirs{root: root}
 	for j := range h.slots {
 		h.slots[j] = filepath.Join(root, fmt.Sprintf("slot%d", j))
